@@ -209,10 +209,17 @@ func renderValue1(v ssa.Value, d int) string {
 				}
 			}
 		}
-		for i, p := range x.Parent().Params {
+		// parameters are numbered without those of an empty struct type (the `type Extractor struct{}`
+		// receiver carries nothing; a method on it and the plain function it may become number alike)
+		k := 0
+		for _, p := range x.Parent().Params {
 			if p == x {
-				return fmt.Sprintf("param%d", i)
+				return fmt.Sprintf("param%d", k)
 			}
+			if st, isStruct := p.Type().Underlying().(*types.Struct); isStruct && st.NumFields() == 0 {
+				continue
+			}
+			k++
 		}
 	case *ssa.FreeVar:
 		return "freevar:" + x.Type().String()
@@ -633,6 +640,24 @@ var rangeEndRe = regexp.MustCompile(`^builtin\.len\((.*)\) <= (?:\(φ:int\+1:int
 func renderSkipDecision(bb *ssa.BasicBlock, k int) string {
 	ifi := blockIf(bb)
 	parts := []string{renderCondV(ifi.Cond, k == 0)}
+	// a branch on the boolean phi of `a && b` / `a || b` (a `case a && b:` of a tagless switch, a
+	// condition bound to a local first) is rendered by the tests it implies, as the branching form is
+	if inner, _ := stripNot(ifi.Cond); inner != nil {
+		if ph, isPhi := inner.(*ssa.Phi); isPhi {
+			if facts := impliedFacts(ifi.Cond, k == 0, 0); len(facts) > 1 {
+				parts = parts[:0]
+				for _, f := range facts {
+					if f.v == ssa.Value(ph) {
+						continue
+					}
+					if _, isP := f.v.(*ssa.Phi); isP {
+						continue
+					}
+					parts = append(parts, renderCondV(f.v, f.val))
+				}
+			}
+		}
+	}
 	other := bb.Succs[1-k]
 	cur := bb
 	for d := 0; d < 8; d++ {
@@ -692,11 +717,11 @@ var c03Predicates = map[string]string{
 // c03GoSumDecisions: the decisions after which gomod.Extract no longer reads go.sum.
 var c03GoSumDecisions = []string{
 	// no go directive: treated like a recent go version (indirect requirements are listed in go.mod)
-	"\"\":github.com/google/osv-scalibr/extractor/filesystem/language/golang/gomod.goVersion == extractor/filesystem/language/golang/gomod.extractGoMod(param2)#1",
+	"\"\":github.com/google/osv-scalibr/extractor/filesystem/language/golang/gomod.goVersion == extractor/filesystem/language/golang/gomod.extractGoMod(param1)#1",
 	// go >= 1.17 lists indirect requirements in go.mod itself
-	"0:int <= go/version.Compare((\"go\":github.com/google/osv-scalibr/extractor/filesystem/language/golang/gomod.goVersion+extractor/filesystem/language/golang/gomod.extractGoMod(param2)#1),\"go1.17\":string)",
+	"0:int <= go/version.Compare((\"go\":github.com/google/osv-scalibr/extractor/filesystem/language/golang/gomod.goVersion+extractor/filesystem/language/golang/gomod.extractGoMod(param1)#1),\"go1.17\":string)",
 	// go.mod itself could not be parsed
-	"extractor/filesystem/language/golang/gomod.extractGoMod(param2)#2 != nil:error",
+	"extractor/filesystem/language/golang/gomod.extractGoMod(param1)#2 != nil:error",
 }
 
 func runC03(p *Prog, r *Report) {
